@@ -517,6 +517,7 @@ def run_scenario(desc, work):
         ip.cleanup()
         shutil.rmtree(root, ignore_errors=True)
         # ---------------- faults
+        exdev = set()       # (rename, EXDEV) faults: followed by a second fault at EVERY later call of the same run
         if probe == "crash":
             plan = []
         elif probe == "all":
@@ -536,6 +537,7 @@ def run_scenario(desc, work):
                 for (s, n, _) in events:
                     if s[0] == "SgRename":
                         plan.append((s, n, "EXDEV"))
+                        exdev.add((s, n, "EXDEV"))
                 plan = list(dict.fromkeys(plan))
         elif "fault" in probe:
             f = probe["fault"]
@@ -551,12 +553,23 @@ def run_scenario(desc, work):
             cases.append(fault_case(scn, thr, kinds0, (s, n, en), root, pre_f, ipf, ev_f, exc_f, clean_out))
             # ---- a second fault later in the same run (sampled)
             later = ev_f[ipf.fired_at + 1:] if ipf.fired_at is not None else []
+            done2 = set()
             for j in desc.get("pick2", {}).get(str(idx), []):
                 if not later:
                     break
                 s2, n2, _ = later[j % len(later)]
                 en2 = ERRNOS[(j // 7) % len(ERRNOS)][0]
+                done2.add((s2, n2, en2))
                 cases.append(double_fault(scn, thr, template, work, kinds0, (s, n, en), (s2, n2, en2), clean_out))
+            if (s, n, en) in exdev:
+                # "the two workspaces are on different devices" is where code is tempted to fall back to copy + delete:
+                # whatever runs after the failed rename (nothing but the error path in the unchanged code) meets a second
+                # fault at each of its calls, deterministically (errnos rotating)
+                for m, (s2, n2, _) in enumerate(later[:8]):
+                    f2 = (s2, n2, ERRNOS[m % len(ERRNOS)][0])
+                    if f2 not in done2:
+                        done2.add(f2)
+                        cases.append(double_fault(scn, thr, template, work, kinds0, (s, n, en), f2, clean_out))
         # ---- handled fault + follow-up through the same handle
         fplan = []
         if probe == "all":
